@@ -79,3 +79,78 @@ Definition spec_step (s : sarr) (o : aop) : bool * sarr :=
 
 Definition spec_run (s : sarr) (os : list aop) : sarr :=
   fold_left (fun s o => snd (spec_step s o)) os s.
+
+(* ---------- the list-of-arrays model of a RaggedArray ---------- *)
+From Darr Require Import RaggedModel.
+
+Record srag := mkSrag {
+  g_nt : numtype; g_bo : byteorder; g_atom : list Z; g_ity : numtype;   (* index type *)
+  g_subs : list (list (list Z));     (* the subarrays: each a list of rows of bytes *)
+  g_mode : mode; g_meta : bool }.
+
+Definition g_lens (g : srag) : list Z := map (fun s => Z.of_nat (length s)) (g_subs g).
+Definition g_with_subs (g : srag) (subs : list (list (list Z))) : srag :=
+  mkSrag (g_nt g) (g_bo g) (g_atom g) (g_ity g) subs (g_mode g) (g_meta g).
+Definition g_with_mode (g : srag) (m : mode) : srag :=
+  mkSrag (g_nt g) (g_bo g) (g_atom g) (g_ity g) (g_subs g) m (g_meta g).
+Definition g_with_meta (g : srag) (b : bool) : srag :=
+  mkSrag (g_nt g) (g_bo g) (g_atom g) (g_ity g) (g_subs g) (g_mode g) b.
+
+(* the items appended completely: up to the first one that raises, cannot be converted,
+   has another atom, whose index does not fit the index type, or whose write fails;
+   v = number of value rows so far *)
+Fixpoint rgood_prefix (atom : list Z) (imax v : Z) (its : list ritem)
+  : list (list (list Z)) * bool :=
+  match its with
+  | [] => ([], false)
+  | RGood t rows :: rest =>
+      if tails_eqb t atom && (v + Z.of_nat (length rows) <=? imax)
+      then let '(g, f) := rgood_prefix atom imax (v + Z.of_nat (length rows)) rest in (rows :: g, f)
+      else ([], true)
+  | _ :: _ => ([], true)
+  end.
+
+Definition g_nrows (g : srag) : Z := Z.of_nat (length (concat (g_subs g))).
+
+Definition rspec_step (g : srag) (o : rop) : bool * srag :=
+  match o with
+  | ROpIterAppend its =>
+      match g_mode g with
+      | R => (false, g)
+      | RW => let '(good, failed) := rgood_prefix (g_atom g) (index_max (g_ity g)) (g_nrows g) its in
+              (negb failed, g_with_subs g (g_subs g ++ good))
+      end
+  | ROpTruncate idx =>
+      match idx, g_mode g with
+      | Some i, RW =>
+          let n := Z.of_nat (length (g_subs g)) in
+          let newlen := slice_len i n in
+          if (0 <=? newlen) && (newlen <? n)
+          then (true, g_with_subs g (firstn (Z.to_nat newlen) (g_subs g)))    (* ra[:i] *)
+          else (false, g)
+      | _, _ => (false, g)
+      end
+  | ROpSetMode m => (true, g_with_mode g m)
+  | ROpReopen m => (true, g_with_mode g m)
+  | ROpMetaSet => match g_mode g with R => (false, g) | RW => (true, g_with_meta g true) end
+  | ROpMetaClear => if g_meta g then match g_mode g with R => (false, g) | RW => (true, g_with_meta g false) end
+                    else (true, g)
+  end.
+
+Definition rspec_run (g : srag) (os : list rop) : srag :=
+  fold_left (fun g o => snd (rspec_step g o)) os g.
+
+(* ra[k] in the model: list indexing with Python's negative indices *)
+Definition g_getitem (g : srag) (k : Z) : option (list (list Z)) :=
+  let n := Z.of_nat (length (g_subs g)) in
+  if (- n <=? k) && (k <? n) then nth_error (g_subs g) (Z.to_nat (if k <? 0 then k + n else k))
+  else None.
+
+(* the structural condition on index rows: first start = s, start <= end, each start
+   equals the previous end; returns the last end *)
+Fixpoint chain_ok (s : Z) (idx : list (Z * Z)) : option Z :=
+  match idx with
+  | [] => Some s
+  | (a, b) :: t => if (a =? s) && (a <=? b) then chain_ok b t else None
+  end.
+
